@@ -7,6 +7,12 @@
    c02.enc fixed <LF|CRLF|CR> <withoutHeader> <ncols> <nrows> <hdr…> <cells…>       (automatic positions)
    c02.encp fixed <LF|CRLF|CR> <withoutHeader> <npos> <pos…> <ncols> <nrows> <hdr…> <cells…>
    c02.dec fixed <noHeader> <withoutNull> <npos> <pos…> <hex>                       (explicit positions)
+   c02.jesc <0|1|2> <hex>                        JSON string escape (Backslash / HexDigits / AllWithHexDigits)
+   c02.junesc <hex>                              JSON string unescape
+   c02.jenc json|jsonl <esc> <pretty> <LF|CRLF|CR> <nprof> <lit=canon…> <ncols> <nrows> <hdr…> <cells…>
+   c02.jdec json|jsonl <nprof> <lit=canon…> <hex>
+       number profile: hex(literal)=hex(FormatFloat(ParseFloat literal)) or hex(literal)=! (ParseFloat fails)
+       JSON cells: N | S<hex> | I<hex decimal text> | F<hex decimal text> | X (NaN/Inf) | B0 B1 | T0 T1 TU | D<hex>
    c02.nop                                                                          (law-only case)
 
    delim = code point (decimal); booleans 0/1; text = hex of UTF-8; header tokens `S<hex>`;
@@ -17,6 +23,7 @@ import Csvq.Model.Proto
 import Csvq.Model.Csv
 import Csvq.Model.Ltsv
 import Csvq.Model.Fixed
+import Csvq.Model.Json
 namespace Csvq.Drive
 open Csvq Csvq.Proto
 
@@ -180,6 +187,90 @@ def decFixed (args : List String) : String :=
     | _, _, _ => "bad-op"
   | _ => "bad-op"
 
+def parseEsc (s : String) : Option Json.Esc :=
+  if s = "0" then some .backslash else if s = "1" then some .hex else if s = "2" then some .all else none
+
+def parseJCell (s : String) : Option Json.JVal :=
+  let rest := (s.drop 1).toString
+  if s = "N" then some .null
+  else if s = "X" then some .nonfinite
+  else if s = "B0" then some (.bool false) else if s = "B1" then some (.bool true)
+  else if s = "T0" then some (.tern (some false)) else if s = "T1" then some (.tern (some true))
+  else if s = "TU" then some (.tern none)
+  else match s.front with
+    | 'S' => (unhexText rest).map .str
+    | 'I' => (unhexText rest).map .int
+    | 'F' => (unhexText rest).map .flt
+    | 'D' => (unhexText rest).map .dt
+    | _ => none
+
+/-- `<n> <lit=canon>…  rest…` → the profile as a function, and the rest -/
+def parseProfile (l : List String) : Option ((List Char → Option (List Char)) × List String) :=
+  match l with
+  | n :: rest =>
+    match n.toNat? with
+    | some n =>
+      if rest.length < n then none
+      else
+        let pairs := (rest.take n).mapM fun (p : String) =>
+          match p.splitOn "=" with
+          | [a, b] =>
+            match unhexText a with
+            | some lit => if b = "!" then some (lit, none) else (unhexText b).map fun c => (lit, some c)
+            | none => none
+          | _ => none
+        pairs.map fun ps =>
+          (fun (lit : List Char) => match ps.find? (fun p => p.1 = lit) with
+            | some p => p.2
+            | none => some ('?' :: lit), rest.drop n)
+    | none => none
+  | [] => none
+
+def jesc (args : List String) : String :=
+  match args with
+  | [t, hx] =>
+    match parseEsc t, unhexText hx with
+    | some t, some s => hexOut (Json.escape t s)
+    | _, _ => "bad-op"
+  | _ => "bad-op"
+
+def junesc (args : List String) : String :=
+  match args with
+  | [hx] =>
+    match unhexText hx with
+    | some s => hexOut (Json.unescape s)
+    | none => "bad-op"
+  | _ => "bad-op"
+
+def jenc (args : List String) : String :=
+  match args with
+  | f :: t :: pr :: lb :: rest =>
+    match parseEsc t, parseBool pr, parseLB lb, parseProfile rest with
+    | some t, some pr, some lb, some (canon, tbl) =>
+      match parseTable parseJCell tbl with
+      | some (h, rows) =>
+        if f = "json" then hexOut (Json.encodeJson t canon (if pr then some lb else none) ⟨h, rows⟩)
+        else if f = "jsonl" then hexOut (Json.encodeJsonl t canon lb ⟨h, rows⟩)
+        else "bad-op"
+      | none => "bad-op"
+    | _, _, _, _ => "bad-op"
+  | _ => "bad-op"
+
+def jdec (args : List String) : String :=
+  match args with
+  | f :: rest =>
+    match parseProfile rest with
+    | some (canon, [hx]) =>
+      match unhexText hx with
+      | some inp =>
+        let r := if f = "json" then Json.decodeJson canon inp else Json.decodeJsonl canon inp
+        match r with
+        | .ok t => showDTable none t
+        | .error _ => "E"
+      | none => "bad-op"
+    | _ => "bad-op"
+  | _ => "bad-op"
+
 end C02
 
 def c02 (cmd : String) (args : List String) : String :=
@@ -191,6 +282,10 @@ def c02 (cmd : String) (args : List String) : String :=
   | "enc", "fixed" :: rest => C02.encFixed false rest
   | "encp", "fixed" :: rest => C02.encFixed true rest
   | "dec", "fixed" :: rest => C02.decFixed rest
+  | "jesc", rest => C02.jesc rest
+  | "junesc", rest => C02.junesc rest
+  | "jenc", rest => C02.jenc rest
+  | "jdec", rest => C02.jdec rest
   | "nop", [] => "ok"     -- a case whose law is checked on the implementation alone
   | _, _ => "bad-op"
 
